@@ -293,10 +293,7 @@ func compareObs(bo, vo obs, docs []string) (bad, implS, modelS []string) {
 	}
 	for i := range bo.ast {
 		if bo.ast[i] != vo.ast[i] {
-			which := "root"
-			if i > 0 {
-				which = "@" + typeOrder[i-1]
-			}
+			which := bo.names[i]
 			bad = append(bad, "ast")
 			implS = append(implS, "AST("+which+",variant)="+vo.ast[i])
 			modelS = append(modelS, "AST("+which+",base)="+bo.ast[i])
@@ -320,7 +317,7 @@ func commentSweep(seed int64, res *caseResult, base texts, raw obs, docs []strin
 	if !explore && len(docs) == 6 {
 		// the sweep validates one sampled, one mutated and the unrelated document (the composed variants all six)
 		sub := []int{0, 2, 5}
-		d2, o2 := make([]string, 0, 3), obs{check: raw.check, ast: raw.ast}
+		d2, o2 := make([]string, 0, 3), obs{check: raw.check, ast: raw.ast, names: raw.names}
 		for _, i := range sub {
 			d2 = append(d2, docs[i])
 			o2.val = append(o2.val, raw.val[i])
@@ -439,7 +436,7 @@ func commentSweep(seed int64, res *caseResult, base texts, raw obs, docs []strin
 			}
 			ex := fmt.Sprintf("%q", vt.root)
 			if vt.root == base.root {
-				for _, nm := range typeOrder {
+				for _, nm := range allTypeOrder {
 					if vt.types[nm] != base.types[nm] {
 						ex = fmt.Sprintf("@%s = %q", nm, vt.types[nm])
 					}
